@@ -31,7 +31,7 @@ def main():
     for cap in (3,):
         e = dict(env, SHIM_CAP=str(cap))
         r = subprocess.run(["cargo", "kani", "--only-codegen", "--no-assertion-reach-checks", "--target-dir",
-                            os.path.join(WORK, "t_nostd_cap%d" % cap), "--harness", "h_raw::ctor"],
+                            os.path.join(WORK, "t_nostd_cap%d_0" % cap), "--harness", "h_raw::ctor"],
                            cwd=os.path.join(ROOT, "harness"), env=e, stdout=subprocess.PIPE,
                            stderr=subprocess.STDOUT, text=True)
         print("[setup] kani codegen warm-up cap=%d: rc=%d" % (cap, r.returncode))
